@@ -563,6 +563,23 @@ func (ex *Exec) doGo(i *ssa.Go) {
 // Channels carry no verified protocol: a send has no effect on memory, a receive yields an arbitrary value.
 func (ex *Exec) doSend(i *ssa.Send) {
 	ex.vc.assumptions["channel operations are not given a protocol: a send has no effect on memory, a receive yields an arbitrary value (blocking and wake-up order are not modelled)"] = true
+	// under `calllog` a send is recorded like a callback invocation: logf(q) is the channel, loga0(q, w) the value
+	// sent -- this lets a contract state WHAT a function sends and in which order (not who receives it or when)
+	top := ex
+	for top.parent != nil {
+		top = top.parent
+	}
+	if top.vc.spec == nil || !top.vc.spec.CallLog {
+		return
+	}
+	st := ex.curState
+	n := ex.get(st, "LOGN", "Int")
+	ex.set(st, "LOGF", "(Array Int Int)", sSto(ex.get(st, "LOGF", "(Array Int Int)"), n, ex.val(i.Chan).T))
+	srt := ex.sortOfT(i.X.Type())
+	key := fmt.Sprintf("LOGA0:%s", sortIdent(srt))
+	as := "(Array Int " + srt + ")"
+	ex.set(st, key, as, sSto(ex.get(st, key, as), n, ex.val(i.X).T))
+	ex.set(st, "LOGN", "Int", "(+ "+n+" 1)")
 }
 
 func (ex *Exec) doRecv(i *ssa.UnOp) {
